@@ -40,7 +40,7 @@ partial def loop (sl : Slice) (h : IO.FS.Stream) (out : IO.FS.Stream) (st : sl.Ï
 def main (args : List String) : IO UInt32 := do
   match args with
   | [name] =>
-    match slices.lookup (if name.startsWith "wasm" then "wasm" else name) with
+    match slices.lookup (if name.startsWith "wasm" then "wasm" else if name.startsWith "overlay" then "overlay" else name) with
     | some sl =>
       let out â† IO.getStdout
       loop sl (â† IO.getStdin) out sl.init
